@@ -273,6 +273,7 @@ def run(ctx):
     ctx.cov["exhaustive"] = False
     nproved = lemma_job.result()
     if nproved:
+        ctx.cov["obligations"] = ctx.cov["discharged"] = nproved
         ctx.cov["unbounded_lemmas"] = "ArithLemmas.tla: %d proof obligations discharged by tlapm (SatBits / PadUp / bits2bytes for all naturals)" % nproved
     ctx.assumptions += ["TLC + BitPrimsP/Ieee specs are the oracle", "the property's sweep over all 2^32 float32 values is replaced by the structured boundary set + random (DESIGN §7)"]
 
